@@ -188,14 +188,18 @@ def csiReadIndexA (hdr : Prog Header) : Prog CsiIndex := do
   let u ← unplaced
   return ⟨ms, d, h, refs, u⟩
 
-/-! ### the sync readers after the `fix:` diffs of this extension
+/-! ### the sync readers before and after the two `fix:` commits of this extension
 
-`fixed = false` is `Noodles.Io.Binary` (the pinned commit); `fixed = true`:
+`fixed = true` is the code as it is since /repo `fix:` 125ecd7 and 8288cb5, and is what
+`Noodles.Io.Binary` transcribes (`namesF true = names`, `csiAuxF true = csiAux`:
+`AsyncMoreProgProof.lean`); `fixed = false` is the code before the two commits:
 * `read_reference_sequence_names` fails with `UnexpectedEof` when the stream ends before `l_nm` bytes
-  (`fixes/csi-names-truncated.diff`) — before, a names block cut short by the end of the file was
+  (125ecd7, `fixes/csi-names-truncated.diff`) — before, a names block cut short by the end of the file was
   accepted if it happened to end with a NUL;
-* `read_aux` skips what the header reader leaves of the `l_aux` bytes (`fixes/csi-aux-drain.diff`) —
-  before, `n_ref` was read from the unread rest of the `aux` block. -/
+* `read_aux` skips what the header reader leaves of the `l_aux` bytes (8288cb5,
+  `fixes/csi-aux-drain.diff`) — before, `n_ref` was read from the unread rest of the `aux` block.
+`limitRem` (a reader run over `reader.take(l)`, returning also the limit that is left) is in
+`Noodles.Io.Binary`. -/
 
 /-- sync `read_reference_sequence_names`; `fixed`: after `read_names`, a `Take` that still has a
 limit left (the stream ended before `l_nm` bytes) is `UnexpectedEof` -/
@@ -229,18 +233,6 @@ def tabixReadIndexF (fixed : Bool) : Prog Tabix := do
   let refs ← many (refLinear true) nRef
   let u ← unplaced
   return ⟨some h, refs, u⟩
-
-/-- a reader run over `reader.take(l)` as `Prog.limit`, returning also the limit that is left -/
-def limitRem {β : Type} : Nat → Prog β → Prog (β × Nat)
-  | l, ret b => ret (b, l)
-  | _, fail e => fail e
-  | l, exact n k =>
-    if n ≤ l then exact n fun r => limitRem (l - n) (k r)
-    else upTo l fun _ => limitRem 0 (k (.error .eof))
-  | l, exactOrEof n k =>
-    if n ≤ l then exactOrEof n fun r => limitRem (l - n) (k r)
-    else upTo l fun bs => limitRem 0 (k (if bs.length = 0 then .ok [] else .error .eof))
-  | l, upTo n k => upTo (min n l) fun bs => limitRem (l - bs.length) (k bs)
 
 /-- sync `read_aux`; `fixed`: `io::copy(&mut aux_reader, &mut io::sink())?` after the header — the
 rest of the `Take`, i.e. of the `l_aux` bytes, is read and dropped -/
